@@ -15,9 +15,14 @@ import time
 ROOT = os.path.dirname(os.path.dirname(os.path.abspath(__file__)))
 COQ = os.path.join(ROOT, "coq")
 BUILD = os.path.join(ROOT, ".build")
-REPO = "/repo"
-TARGET = os.path.join(BUILD, "target")
+# OKV_REPO lets a development run point the whole check at another checkout of okane (a scratch
+# worktree with a candidate change); registered commands never set it: they use /repo.
+REPO = os.environ.get("OKV_REPO", "/repo")
+ALT = REPO != "/repo"
+TARGET = os.path.join(BUILD, "target-alt" if ALT else "target")
 OKV = os.path.join(TARGET, "release", "okv")
+HARNESS = os.path.join(BUILD, "harness-alt") if ALT else os.path.join(ROOT, "harness")
+OKANE_TARGET = os.path.join(BUILD, "okane-target-alt" if ALT else "okane-target")
 
 # axioms of the standard library a theorem may depend on (each named in DESIGN.md section 6)
 AXIOM_ALLOW = {
@@ -215,25 +220,30 @@ def check_proofs(prop, cfg):
 def build_harness():
     """-> (status, log): status in ok | repo_broken | harness_broken"""
     os.makedirs(BUILD, exist_ok=True)
-    shutil.copyfile(os.path.join(REPO, "Cargo.lock"), os.path.join(ROOT, "harness", "Cargo.lock"))
+    if ALT:
+        shutil.rmtree(HARNESS, ignore_errors=True)
+        shutil.copytree(os.path.join(ROOT, "harness"), HARNESS, ignore=shutil.ignore_patterns("target", "Cargo.lock"))
+        ct = open(os.path.join(HARNESS, "Cargo.toml")).read().replace('path = "/repo/', 'path = "%s/' % REPO)
+        open(os.path.join(HARNESS, "Cargo.toml"), "w").write(ct)
+    shutil.copyfile(os.path.join(REPO, "Cargo.lock"), os.path.join(HARNESS, "Cargo.lock"))
     env = {"CARGO_TARGET_DIR": TARGET}
-    rc, out = run(["cargo", "build", "--release", "--offline"], cwd=os.path.join(ROOT, "harness"),
+    rc, out = run(["cargo", "build", "--release", "--offline"], cwd=HARNESS,
                   env=env, timeout=1500)
     if rc == 0:
         return "ok", out[-2000:]
     # does /repo itself build?
     rc2, out2 = run(["cargo", "build", "--release", "--offline", "-p", "okane-core", "-p", "okane",
-                     "-p", "okane-golden"], cwd=os.path.join(ROOT, "harness"), env=env, timeout=1500)
+                     "-p", "okane-golden"], cwd=HARNESS, env=env, timeout=1500)
     if rc2 != 0:
         return "repo_broken", out2[-6000:]
     return "harness_broken", out[-6000:]
 
 
 def build_okane_bin():
-    env = {"CARGO_TARGET_DIR": os.path.join(BUILD, "okane-target")}
+    env = {"CARGO_TARGET_DIR": OKANE_TARGET}
     rc, out = run(["cargo", "build", "--release", "--offline", "-p", "okane", "--bin", "okane"],
                   cwd=REPO, env=env, timeout=1500)
-    return rc == 0, out[-4000:], os.path.join(BUILD, "okane-target", "release", "okane")
+    return rc == 0, out[-4000:], os.path.join(OKANE_TARGET, "release", "okane")
 
 
 def parse_verdicts(out):
@@ -264,8 +274,8 @@ def correspondence(prop, cfg, tier, seed, tag="main", extra=None):
     cmd = [OKV, prop.lower(), "--seed", str(seed), "--tier", tier, "--out", out_dir,
            "--corpus", os.path.join(ROOT, "corpus", prop), "--shards", "16"] + (extra or [])
     rc, out = run(cmd, timeout=cfg.get("harness_timeout", 1500), cwd=BUILD,
-                  env={"OKV_OKANE_BIN": os.path.join(BUILD, "okane-target", "release", "okane"),
-                       "OKV_SCRATCH": os.path.join(BUILD, "scratch")})
+                  env={"OKV_OKANE_BIN": os.path.join(OKANE_TARGET, "release", "okane"),
+                       "OKV_SCRATCH": os.path.join(BUILD, "scratch"), "OKV_REPO": REPO})
     if rc != 0:
         return {"error": "harness exited %d:\n%s" % (rc, out[-3000:]), "results": [], "meta": {}, "dir": out_dir}
     meta = json.load(open(os.path.join(out_dir, "meta.json")))
@@ -425,7 +435,7 @@ def check(prop, cfg, tier, seed, replay=None):
         "wall_s": round(time.time() - t0, 2),
         "violations": len(violations),
     }
-    if not replay:
+    if not replay and not ALT:
         write_evidence(prop, ev)
     if corr.get("dir"):
         shutil.rmtree(corr["dir"], ignore_errors=True)
